@@ -13,7 +13,8 @@ import (
 
 var anchorPatterns = map[string][]string{
 	// complete, well-formed ranking: the four ranking builders, the search order, result arrays, current choice carried through listeners
-	"C01": {
+	"C01": {`^type:model\.(AlternativesRankEntry|AlternativeResult|AlternativeWithCriteria|DecisionMakerChoice)$`, `^model\.UpdateAlternatives$`, `^(criteria_concealment\.generateCriterionValuesForAlternatives|criteria_mixing\.updateDMParams|preference_reversal\.updateAlternativesWithReversedCriteriaValues|criteria_omission\.omitCriteria|fatigue\.prepareResult)$`, `^anchoring\.\(\*(Inline|NewCriterion)AnchoringApplier\)\.ApplyAnchoring$`, `^(majority|satisfaction|aspect_elimination)\.\(\*\w+\)\.ParseParams$`,
+
 		`^model\.\(\*AlternativeResults\)\.Ranking$`, `^model\.\(\*AlternativeResult\)\.positionInRanking$`, `^model\.Rank$`,
 		`^limited_rationality\.`, `^majority\.prepareRanking$`, `^majority\.\(\*Majority\)\.Evaluate$`, `^majority\.\(\*\w+Resolver\)\.Resolve$`,
 		`^majority\.\(\*Majority\)\.takeBetter$`, `^electreIII\.EvaluateRanking$`, `^electreIII\.ElectreIII$`,
@@ -25,18 +26,26 @@ var anchorPatterns = map[string][]string{
 		`^(majority|satisfaction|aspect_elimination)\.\(\*\w+BiasListener\)\.(Merge|OnCriteriaRemoved)$`,
 		`^(satisfaction|aspect_elimination)\.\(\*\w+\)\.with$`, `^(majority|satisfaction)\.\(\*\w+\)\.GetCurrentChoice$`,
 	},
-	"C02": {`^utils\.(RandomGenerator|RandomBasedSeedValueGenerator|NewValueInRangeGenerator)$`, `^main\.`},
-	"C03": {
+	"C02": {`^type:model\.DecisionMaker$`,
+		`^utils\.(RandomGenerator|RandomBasedSeedValueGenerator|NewValueInRangeGenerator)$`, `^main\.`, `^global:main\.`,
+		// the functions the tabled collect-then-sort map ranges (ND-3 class S) rely on
+		`^model\.\(\*Weights\)\.AsKeyValue$`, `^owa\.(sortAlternativeCriteriaWeights|additionAsOwaParams)$`, `^choquet\.(prepareCriteriaInAscendingOrder|computeTotalWeight|criterionKey)$`,
+		`^choquet\.\(\*criteriaWeights\)\.(Less|Len|Swap)$`, `^satisfaction_levels\.\(\*SatisfactionLevelsUpdateListeners\)\.Fetch$`},
+	"C03": {`^type:model\.(EvaluationSingleValue|AlternativeResult|AlternativesRankEntry|WeightType)$`,
+
 		`^weighted_sum\.`, `^owa\.`, `^choquet\.`, `^model\.\(\*AlternativeResult\)\.(rounded|Value)$`, `^model\.(ValueAlternativeResult|Rank|ExtractWeights)$`,
 		`^model\.\(\*AlternativeWithCriteria\)\.(CriterionValue|CriterionRawValue)$`, `^model\.\(\*Criterion\)\.(Multiplier|IsGain)$`,
 		`^model\.\(\*Criteria\)\.(ZipWithWeights|FindWeight|Names)$`, `^model\.\(\*Weights\)\.Fetch$`, `^utils\.FloatsAreEqual$`,
 	},
-	"C04": {
+	"C04": {`^type:model\.(EvaluationSingleValue|AlternativeResult|AlternativesRankEntry)$`, `^model\.\(\*AlternativeResults\)\.(Len|Swap)$`,
+
 		`^model\.\(\*AlternativeResults\)\.(Ranking|Less)$`, `^model\.\(\*AlternativeResult\)\.(positionInRanking|rounded|Value)$`, `^model\.Rank$`, `^model\.ValueAlternativeResult$`,
 	},
-	"C05": {`^electreIII\.`, `^utils\.\(\*LinearFunctionParameters\)\.Evaluate$`, `^utils\.(IsPositive|ContainsInts)$`,
+	"C05": {`^type:electreIII\.`, `^global:electreIII\.`, `^type:utils\.LinearFunctionParameters$`,
+		`^electreIII\.`, `^utils\.\(\*LinearFunctionParameters\)\.Evaluate$`, `^utils\.(IsPositive|ContainsInts)$`,
 		`^model\.\(\*AlternativeWithCriteria\)\.(CriterionValue|CriterionRawValue)$`, `^model\.\(\*Criterion\)\.Multiplier$`},
-	"C07": {
+	"C07": {`^global:main\.`, `^type:(anchoring|criteria_concealment|criteria_mixing|criteria_omission|fatigue|preference_reversal|model)\.`,
+
 		`^(anchoring|criteria_concealment|criteria_mixing|criteria_omission|fatigue|preference_reversal)\.`,
 		`\.\(\*\w+Bias[Ll][Ii]stener\)\.`, `^satisfaction_levels\.\(\*(ThresholdSatisfactionLevelsSource|IdealCoefficientSatisfactionLevelsSource|ThresholdSatisfactionLevels|SatisfactionLevelsUpdateListeners)\)\.`,
 		`^satisfaction_levels\.(assignNewThresholds|fetchParams|mapThresholdsToEntries|sortThresholds)$`,
@@ -49,8 +58,10 @@ var anchorPatterns = map[string][]string{
 		`^choquet\.(PowerSet|PowerSetSize|criterionKey|getWeightForCriteriaUnion|getWeightForCombinedCriterion|decomposeWeights)$`,
 		`^criteria_(ordering|splitting)\.`, `^reference_criterion\.`, `^criteria_bounding\.`, `^utils\.RemoveSingleStringOccurrence$`,
 	},
-	"C08": {`^model\.(ChooseBiases|UpdateBiasesProps)$`, `^model\.\(\*DecisionMaker\)\.(processBiases|MakeDecision)$`, `^utils\.(RandomGenerator|RandomBasedSeedValueGenerator)$`, `^main\.decideHandler$`},
-	"C09": {
+	"C08": {`^type:model\.(BiasParams|BiasWithProps|BiasedResult|DecisionMakerChoice|DecisionMaker)$`, `^global:main\.biases$`,
+		`^model\.(ChooseBiases|UpdateBiasesProps)$`, `^model\.\(\*DecisionMaker\)\.(processBiases|MakeDecision)$`, `^utils\.(RandomGenerator|RandomBasedSeedValueGenerator)$`, `^main\.decideHandler$`},
+	"C09": {`^electreIII\.getDistillationFunc$`, `^utils\.NewValueRange$`, `^model\.\(\*Criteria\)\.Validate$`, `^choquet\.\(\*ChoquetIntegralBiasListener\)\.(Merge|OnCriterionAdded|OnCriteriaRemoved)$`, `^weighted_sum\.\(\*WeightedSumBiasListener\)\.Merge$`, `^global:`,
+
 		`^model\.(FetchAlternatives|FetchAlternative|CopyAlternatives|ShuffleAlternatives|SortAlternativesByName|RemoveAlternative|RemoveAlternativeAt|UpdateAlternatives|AddCriterionToAlternatives|PreserveCriteriaForAlternatives|CriteriaValuesRange|ValuesRangeWithGroundZero|RescaleCriterion)$`,
 		`^model\.\(\*DecisionMaker\)\.(NotConsideredAlternatives|AlternativesToConsider|prepareParams|processBiases|MakeDecision)$`,
 		`^model\.\(\*DecisionMakingParams\)\.AllAlternatives$`, `^model\.\(\*Criteria\)\.(Add|ShallowCopy|SortByWeights|ZipWithWeights)$`,
@@ -62,45 +73,56 @@ var anchorPatterns = map[string][]string{
 		`^owa\.(sortWeights|_sortWeightsMutate)$`, `^electreIII\.\(\*Matrix\)\.(Without|Slice|Filter)$`, `^utils\.\(\*ValueRange\)\.ScaleEqually$`, `^criteria_bounding\.scaleRange$`,
 		`^majority\.prepareRanking$`, `^(aspect_elimination|satisfaction)\.checkWithinSatisfactionLevels$`, `^main\.`,
 	},
-	"C10": {
+	"C10": {`^global:`,
+
 		`\.BlankParams$`, `\.NewProvider$`, `^reference_criterion\.\(\*ReferenceCriteriaManager\)\.`, `^reference_criterion\.NewReferenceCriteriaManager$`,
 		`^satisfaction_levels\.Find$`, `^satisfaction_levels\.\(\*SatisfactionLevelsUpdateListeners\)\.`, `^anchoring\.parseFuncParams$`, `^fatigue\.parseFatigueFuncParams$`,
 		`^fatigue\.\(\*Fatigue\)\.Apply$`, `^utils\.(RandomGenerator|RandomBasedSeedValueGenerator|DecodeToStruct|AsMap)$`, `\.New\w+$`, `^main\.`,
 		`^satisfaction_levels\.\(\*(IdealCoefficientSatisfactionLevels|ThresholdSatisfactionLevels)\)\.`, `^choquet\.PowerSet$`,
 	},
-	"C11": {`^majority\.`, `^limited_rationality\.(GetAlternativesSearchOrder|OrderAlternatives)$`, `^utils\.FloatsAreEqual$`,
+	"C11": {`^type:majority\.`, `^global:main\.funcs$`,
+		`^majority\.`, `^limited_rationality\.(GetAlternativesSearchOrder|OrderAlternatives)$`, `^utils\.FloatsAreEqual$`,
 		`^model\.\(\*AlternativeWithCriteria\)\.CriterionValue$`, `^model\.\(\*Criteria\)\.ZipWithWeights$`, `^model\.\(\*AlternativesRanking\)\.ReverseOrder$`},
-	"C12": {`^aspect_elimination\.(checkWithinSatisfactionLevels|fillRemainingAlternatives|updateResult|isBellowThreshold|makeWeightPair|sortCriteria)$`,
+	"C12": {`^type:aspect_elimination\.`, `^satisfaction_levels\.\(\*\w+Source\)\.BlankParams$`, `^global:main\.(funcs|increasingSatisfactionLevels)$`, `^global:satisfaction_levels\.`, `^satisfaction_levels\.\(\*(IdealCoefficientSatisfactionLevels|IncreasingCoefficientManager)\)\.`,
+		`^aspect_elimination\.(checkWithinSatisfactionLevels|fillRemainingAlternatives|updateResult|isBellowThreshold|makeWeightPair|sortCriteria)$`,
 		`^aspect_elimination\.\(\*AspectEliminationHeuristic\)\.(Evaluate|ParseParams)$`, `^limited_rationality\.(OrderAlternatives|PrepareSequentialRanking)$`,
 		`^satisfaction_levels\.Find$`, `^model\.(RemoveAlternative|CopyAlternatives|ShuffleAlternatives)$`, `^model\.\(\*AlternativeWithCriteria\)\.CriterionValue$`,
 		`^model\.\(\*Criteria\)\.ZipWithWeights$`, `^satisfaction_levels\.\(\*ThresholdSatisfactionLevels\)\.(Initialize|HasNext|Next)$`},
-	"C13": {`^satisfaction\.(checkWithinSatisfactionLevels|fillRemainingAlternatives|updateResult|isGoodEnough|weightsSupplier)$`,
+	"C13": {`^type:satisfaction\.`, `^satisfaction_levels\.\(\*\w+Source\)\.BlankParams$`, `^global:main\.(funcs|decreasingSatisfactionLevels)$`, `^global:satisfaction_levels\.`, `^satisfaction_levels\.\(\*(IdealCoefficientSatisfactionLevels|DecreasingCoefficientManager)\)\.`, `^satisfaction\.\(\*SatisfactionBiasListener\)\.`,
+		`^satisfaction\.(checkWithinSatisfactionLevels|fillRemainingAlternatives|updateResult|isGoodEnough|weightsSupplier)$`,
 		`^satisfaction\.\(\*Satisfaction\)\.(Evaluate|ParseParams)$`, `^satisfaction\.\(\*SatisfactionParameters\)\.`, `^limited_rationality\.`,
 		`^satisfaction_levels\.Find$`, `^model\.(RemoveAlternative|CopyAlternatives|ShuffleAlternatives|CriteriaValuesRange)$`, `^model\.\(\*AlternativeWithCriteria\)\.CriterionValue$`,
 		`^model\.\(\*Criteria\)\.ZipWithWeights$`, `^model\.\(\*Criterion\)\.(IsGain|Multiplier)$`, `^satisfaction_levels\.\(\*ThresholdSatisfactionLevels\)\.(Initialize|HasNext|Next)$`,
 		`^model\.\(\*DecisionMakingParams\)\.AllAlternatives$`},
-	"C14": {`^satisfaction_levels\.\(\*(IdealCoefficientSatisfactionLevels|IncreasingCoefficientManager|DecreasingCoefficientManager|IdealCoefficientSatisfactionLevelsSource)\)\.`,
+	"C14": {`^type:satisfaction_levels\.`, `^global:main\.(funcs|biasListeners)$`,
+		`^satisfaction_levels\.\(\*(IdealCoefficientSatisfactionLevels|IncreasingCoefficientManager|DecreasingCoefficientManager|IdealCoefficientSatisfactionLevelsSource)\)\.`,
 		`^satisfaction_levels\.Find$`, `^model\.CriteriaValuesRange$`, `^utils\.\(\*ValueRange\)\.Diff$`, `^utils\.NewValueRange$`, `^model\.\(\*Criterion\)\.Multiplier$`,
 		`^model\.\(\*DecisionMakingParams\)\.AllAlternatives$`, `^global:satisfaction_levels\.`, `^global:main\.(increasing|decreasing)`},
-	"C15": {`^criteria_omission\.`, `^criteria_splitting\.`, `^criteria_ordering\.`, `^model\.\(\*Criteria\)\.(SortByWeights|Weight|FindWeight)$`,
+	"C15": {`^global:main\.(criteriaOrdering|biases|biasListeners)$`, `^type:(criteria_omission|criteria_splitting|criteria_ordering)\.`,
+		`^criteria_omission\.`, `^criteria_splitting\.`, `^criteria_ordering\.`, `^model\.\(\*Criteria\)\.(SortByWeights|Weight|FindWeight)$`,
 		`\.\(\*\w+Bias[Ll][Ii]stener\)\.(RankCriteriaAscending|OnCriteriaRemoved)$`, `^model\.(PrepareCumulatedWeightsMap|WeightIdentity|PreserveCriteriaForAlternatives)$`,
 		`^choquet\.(decomposeWeights|computeTotalWeight|prepareCriteriaInAscendingOrder)$`, `^model\.\(\*WeightedCriteria\)\.Criteria$`, `^model\.\(\*Weights\)\.PreserveOnly$`,
 		`^model\.\(\*AlternativeWithCriteria\)\.WithCriteriaOnly$`, `^satisfaction_levels\.\(\*\w+Source\)\.OnCriteriaRemoved$`, `^satisfaction_levels\.\(\*ThresholdSatisfactionLevels\)\.preserveLeftThresholds$`,
 		`^utils\.(IsProbability|IsInBounds)$`, `^weighted_sum\.\(\*weightedSumParams\)\.Criterion$`, `^owa\.\(\*owaParams\)\.find$`, `^(aspect_elimination|satisfaction)\.\(\*\w+\)\.(with|getMethodParams)$`},
-	"C16": {`^preference_reversal\.`, `^criteria_splitting\.`, `^criteria_ordering\.`, `^model\.(CriteriaValuesRange|UpdateAlternatives)$`, `^model\.\(\*Weights\)\.(Copy|Fetch)$`,
+	"C16": {`^utils\.NewValueRange$`, `^type:preference_reversal\.`, `^global:main\.(criteriaOrdering|biases)$`,
+		`^preference_reversal\.`, `^criteria_splitting\.`, `^criteria_ordering\.`, `^model\.(CriteriaValuesRange|UpdateAlternatives)$`, `^model\.\(\*Weights\)\.(Copy|Fetch)$`,
 		`^model\.\(\*AlternativeWithCriteria\)\.WithCriteriaValues$`, `^model\.\(\*DecisionMakingParams\)\.AllAlternatives$`},
-	"C17": {`^fatigue\.`, `^criteria_bounding\.`, `^utils\.\(\*ExpFromZeroFunction\)\.Evaluate$`, `^utils\.\(\*ValueRange\)\.(ScaleEqually|Diff)$`, `^model\.CriteriaValuesRange$`,
+	"C17": {`^type:(fatigue|criteria_bounding)\.`, `^global:main\.biases$`, `^utils\.NewValueRange$`,
+		`^fatigue\.`, `^criteria_bounding\.`, `^utils\.\(\*ExpFromZeroFunction\)\.Evaluate$`, `^utils\.\(\*ValueRange\)\.(ScaleEqually|Diff)$`, `^model\.CriteriaValuesRange$`,
 		`^model\.\(\*AlternativeWithCriteria\)\.(WithCriteriaValues|CriterionRawValue)$`, `^model\.\(\*DecisionMakingParams\)\.AllAlternatives$`},
-	"C18": {`^criteria_concealment\.`, `^criteria_mixing\.`, `^reference_criterion\.`, `^model\.(ValuesRangeWithGroundZero|RescaleCriterion|scaleCriterion|GetScaleRatio|GetNormalScaleRatio|NewCriterionValue|SingleWeight|AddCriterionToAlternatives|SortAlternativesByName|UpdateAlternatives|CriteriaValuesRange)$`,
+	"C18": {`^type:(criteria_concealment|criteria_mixing|reference_criterion)\.`, `^global:main\.(biases|referenceCriterionManager)$`, `^global:model\.`,
+		`^criteria_concealment\.`, `^criteria_mixing\.`, `^reference_criterion\.`, `^model\.(ValuesRangeWithGroundZero|RescaleCriterion|scaleCriterion|GetScaleRatio|GetNormalScaleRatio|NewCriterionValue|SingleWeight|AddCriterionToAlternatives|SortAlternativesByName|UpdateAlternatives|CriteriaValuesRange)$`,
 		`^criteria_bounding\.`, `^utils\.NewValueInRangeGenerator$`, `\.\(\*\w+Bias[Ll][Ii]stener\)\.(OnCriterionAdded|Merge)$`, `^satisfaction_levels\.\(\*\w+Source\)\.(OnCriterionAdded|Merge)$`,
 		`^satisfaction_levels\.(assignNewThresholds|mapThresholdsToEntries|sortThresholds)$`, `^satisfaction_levels\.\(\*ThresholdSatisfactionLevels\)\.merge$`,
 		`^model\.\(\*Criteria\)\.(NotUsedName|countWithPrefix|Add)$`, `^model\.firstFreeName$`, `^model\.\(\*AlternativeWithCriteria\)\.WithCriterion$`,
 		`^utils\.\(\*ValueRange\)\.(ScaleEqually|Diff)$`, `^utils\.(IsProbability|IsInBounds)$`, `^owa\.(additionAsOwaParams|addCriteria)$`, `^owa\.\(\*owaParams\)\.(merge|find)$`,
 		`^model\.\(\*Weights\)\.Merge$`},
-	"C19": {`^anchoring\.`, `^criteria_bounding\.`, `^model\.(GetScaleRatio|GetNormalScaleRatio|CriteriaValuesRange|UpdateAlternatives)$`,
+	"C19": {`^type:anchoring\.`, `^global:main\.biases$`, `^global:model\.`,
+		`^anchoring\.`, `^criteria_bounding\.`, `^model\.(GetScaleRatio|GetNormalScaleRatio|CriteriaValuesRange|UpdateAlternatives)$`,
 		`^utils\.\(\*(ExpFromZeroFunction|LinearFunctionParameters)\)\.Evaluate$`, `^utils\.\(\*ValueRange\)\.(Diff|ScaleEqually)$`,
 		`^model\.\(\*AlternativeWithCriteria\)\.(CriterionValue|WithCriterion|WithCriteriaValues)$`, `^model\.\(\*Criterion\)\.IsGain$`},
-	"C20": {`^main\.`, `^model\.\(\*DecisionMaker\)\.(MakeDecision|validateAlternatives|prepareParams)$`, `^model\.\(\*Criteria\)\.(Validate|FindWeight)$`,
+	"C20": {`^global:main\.`, `^type:main\.`, `^type:model\.(DecisionMaker|DecisionMakerChoice|Criterion|BiasParams)$`, `^satisfaction_levels\.\(\*(IdealCoefficientSatisfactionLevels|IncreasingCoefficientManager|DecreasingCoefficientManager|ThresholdSatisfactionLevels)\)\.`, `^global:satisfaction_levels\.`, `^global:electreIII\.`,
+		`^main\.`, `^model\.\(\*DecisionMaker\)\.(MakeDecision|validateAlternatives|prepareParams)$`, `^model\.\(\*Criteria\)\.(Validate|FindWeight)$`,
 		`^model\.\(\*(PreferenceFunctions|BiasListeners)\)\.(Fetch|FetchParameters)$`, `^model\.(ChooseBiases|FetchAlternative|ExtractWeights|IsStringBlank)$`,
 		`^model\.\(\*Weights\)\.Fetch$`, `^model\.\(\*AlternativeWithCriteria\)\.CriterionRawValue$`,
 		`^electreIII\.(validateParameters|requireBValueAtLeast|getDistillationFunc|extractElectreIIICriteria|distillate|updatePositions|getDistillateMatrix|evaluatePair|rank|ElectreIII)$`,
@@ -174,9 +196,18 @@ func ruleE5(p *Program, c *Check, min int) {
 		}
 	}
 	for _, d := range p.Drifted {
-		if k := driftKey(d); anchoredIn(c.Property, k) {
-			unmatched = append(unmatched, k+" (reference no longer type-checks)")
+		k := driftKey(d)
+		if !anchoredIn(c.Property, k) {
+			continue
 		}
+		if cf := p.codeByNormKey(k); cf != nil {
+			// the anchored function is still there, but something its reference relies on (a type, a field, a method
+			// set) changed: the formula can no longer be validated
+			c.Fail(rule, k, "value-graph#reference-does-not-type-check", p.fpos(cf),
+				"the reference implementation of this function no longer type-checks against the working tree (a type, field or method it relies on changed), so the function cannot be validated")
+			continue
+		}
+		unmatched = append(unmatched, k+" (removed together with what its reference used)")
 	}
 	if len(unmatched) > 0 {
 		c.Extra["unmatched_anchors"] = unmatched
@@ -184,6 +215,7 @@ func ruleE5(p *Program, c *Check, min int) {
 			c.Property, len(unmatched), trunc(strings.Join(unmatched, ", "), 400))
 	}
 	ruleGlobals(p, c)
+	ruleTypes(p, c)
 }
 
 func itoa(i int) string { return strconv.Itoa(i) }
